@@ -10,7 +10,7 @@
 (* replayed relation takes CpRead and CpTruncate as ONE step (CpReadTruncate,  *)
 (* their composition); the exhaustive check of Monorail.tla keeps them apart.  *)
 EXTENDS Monorail, Json
-CONSTANTS EmitDepth, MaxCrashes
+CONSTANTS EmitDepth, MaxCrashes, ScriptId
 VARIABLES hist, ncrash
 svars == <<vars, hist, ncrash>>
 
@@ -30,12 +30,36 @@ CpReadTruncate(p) ==
 Post == [store |-> store', cpfile |-> cpfile', cp |-> repo'.cp, holder |-> holder', obs |-> obs',
          pcs |-> [p \in Procs |-> inv'[p].pc], wt |-> repo'.wt, ncommits |-> Len(repo'.commits),
          affected |-> AffectedNow']
-Log(a, p, x) == hist' = Append(hist, [a |-> a, p |-> p, x |-> x, pre |-> [holder |-> holder, canstart |-> CanStart(store), cpfile |-> cpfile],
+(* Directed prefixes: behaviours may be made to begin with a scripted sequence of actions (then continue at      *)
+(* random), so that situations a uniform walk rarely reaches are replayed in every run of the checks.              *)
+S(a, p, api) == [a |-> a, p |-> p, api |-> api]
+FullRun(p) == << S("Start", p, "run"), S("TryLock", p, ""), S("RunChoose", p, ""), S("RunEffect", p, ""), S("RunEffect", p, ""),
+                 S("RunReadRepo", p, ""), S("RunEffect", p, ""), S("RunEffect", p, ""), S("RunEffect", p, "") >>
+FullCpUpdate(p) == << S("Start", p, "cp_update"), S("TryLock", p, ""), S("CpReadTruncate", p, ""), S("CpWrite", p, "") >>
+Show(p) == << S("Start", p, "result_show"), S("ResultShow", p, "") >>
+Ana(p) == << S("Start", p, "analyze"), S("Analyze", p, "") >>
+Script ==
+  CASE ScriptId = 1 -> \* a run right after a checkpoint update with nothing changed (covers no target), then readers
+         FullCpUpdate(1) \o FullRun(1) \o Show(2) \o Ana(2) \o FullRun(2) \o Show(1)
+    [] ScriptId = 2 -> \* completed run, a run killed after its result was stored but before the pointer moved, readers, next run
+         FullRun(1) \o SubSeq(FullRun(1), 1, 8) \o << S("Crash", 1, "") >> \o Show(2) \o FullRun(2) \o Show(1) \o FullRun(1) \o Show(2)
+    [] ScriptId = 3 -> \* checkpoint update killed inside its rewrite window; what analyze, run, checkpoint delete and out delete do then
+         << S("EnvEdit", 0, "") >> \o SubSeq(FullCpUpdate(1), 1, 3) \o << S("Crash", 1, "") >> \o Ana(2)
+           \o SubSeq(FullRun(1), 1, 6) \o << S("Start", 1, "cp_delete"), S("TryLock", 1, ""), S("CpDelete", 1, "") >> \o Ana(2)
+           \o << S("Start", 1, "out_delete"), S("TryLock", 1, ""), S("OutDelete", 1, "") >> \o Ana(2) \o FullCpUpdate(2) \o Ana(1)
+    [] ScriptId = 4 -> \* edits and a commit while a run is parked before it reads the repository; contenders meanwhile
+         FullCpUpdate(1) \o SubSeq(FullRun(1), 1, 5) \o << S("EnvEdit", 0, "af"), S("Start", 2, "cp_update"), S("TryLock", 2, ""),
+              S("EnvEdit", 0, "cf"), S("EnvCommitAll", 0, ""), S("RunReadRepo", 1, "") >> \o Ana(2) \o SubSeq(FullRun(1), 7, 9) \o Show(2)
+    [] OTHER -> << >>
+Scripted == Len(hist) < Len(Script)
+FollowsScript(a, p, x) == Scripted => LET sc == Script[Len(hist) + 1] IN
+                                        a = sc.a /\ p = sc.p /\ ((a = "Start" \/ (a = "EnvEdit" /\ sc.api # "")) => x[1] = sc.api)
+Log(a, p, x) == FollowsScript(a, p, x) /\ hist' = Append(hist, [a |-> a, p |-> p, x |-> x, pre |-> [holder |-> holder, canstart |-> CanStart(store), cpfile |-> cpfile],
                                        post |-> Post])
 
 \* simulation weighting only (RandomElement is evaluated afresh for every step TLC generates): starts, edits and
 \* crashes are thinned out so that invocations usually run on to their later steps
-Thin(k) == RandomElement(1..k) = 1
+Thin(k) == Scripted \/ RandomElement(1..k) = 1
 SInit == Init /\ hist = <<>> /\ ncrash = 0
 SNext ==
   \/ /\ UNCHANGED ncrash
